@@ -1,5 +1,5 @@
 import MxModel.Proofs.BackupGen
-import MxModel.Proofs.IOSession
+import MxModel.Proofs.IOSessionLoad
 import MxModel.Proofs.BackupSeq
 import MxModel.Proofs.BackupSession
 import MxModel.Proofs.BackupPolicy
@@ -567,13 +567,13 @@ registered when the load began are removed - BY IDENTITY. -/
 began (`snapshot`), none of whose specs the load read and none of whose values the half-read model references
 (the values of a load are new objects), is in the registry afterwards as it was - identity, key, all specs;
 whatever its group: another model's, or the session-wide group of absolute paths. -/
-theorem failed_load_cleanup_leaves_others (st : IOSession.St) (m : Nat) (snapshot read : List Nat)
-    (hdet : IOSession.SidDet st) (io : IOSession.Io) (hio : io ∈ st.ios)
+theorem failed_load_cleanup_leaves_others (ops : List IOSession.Op) (m : Nat) (snapshot read : List Nat)
+    (io : IOSession.Io) (hio : io ∈ (IOSession.run {} ops).ios)
     (hsnap : snapshot.contains io.iid = true)
     (hread : ∀ s ∈ io.specs, read.contains s.sid = false)
-    (hval : ∀ s ∈ io.specs, IOSession.boundIn st.refs m s.val = false) :
-    io ∈ (IOSession.cleanup st m snapshot read).ios :=
-  IOSession.cleanup_keeps st m snapshot read hdet io hio hsnap hread hval
+    (hval : ∀ s ∈ io.specs, IOSession.boundIn (IOSession.run {} ops).refs m s.val = false) :
+    io ∈ (IOSession.cleanup (IOSession.run {} ops) m snapshot read).ios :=
+  IOSession.cleanup_keeps _ m snapshot read (IOSession.reachable_inv ops).det io hio hsnap hread hval
 
 /-- **…and removes what the load created**: every file object left was registered when the load began and holds
 none of the specs the load read. -/
@@ -608,5 +608,18 @@ example :
     IOSession.specsOf (IOSession.cleanupMutG half 2) 0 ≠ IOSession.specsOf IOSession.demo 0 ∧
     IOSession.specsOf (IOSession.cleanup half 2 (IOSession.demo.ios.map (·.iid)) [4]) 0
       = IOSession.specsOf IOSession.demo 0 := by decide +kernel
+
+/-- **A failed load leaves the io state of the session exactly as it was** - after EVERY history, for EVERY list of
+entries a saved model may hold (relative and absolute paths, files already in use, some values already bound when the
+failure strikes): the registry of file objects `IOManager.ios` is the same list (identities, keys, specs, order), and
+every model of the session keeps its references and its `iospecs`. -/
+theorem failed_load_restores_session (ops : List IOSession.Op) (items : List IOSession.Item) :
+    let st := IOSession.run {} ops
+    (IOSession.load st items false).1.ios = st.ios ∧
+    ∀ m', m' ≠ st.nextModel →
+      (IOSession.load st items false).1.refs.filter (fun r => r.model == m') =
+        st.refs.filter (fun r => r.model == m') ∧
+      IOSession.specsOf (IOSession.load st items false).1 m' = IOSession.specsOf st m' :=
+  IOSession.failed_load_restores (IOSession.reachable_inv ops) items
 
 end MxModel.C14
